@@ -43,13 +43,19 @@ func runConnIDs(w *bufio.Writer, seed uint64, n int, _ []string) {
 	for i := 0; i < nm; i++ {
 		c.mgrCase(r.Fork(), i)
 	}
+	c.genWitnesses()
 	for i := 0; i < ng; i++ {
-		c.genCase(r.Fork(), i)
+		c.genCase(r.Fork(), i, false)
 	}
 	// the routing table runs on virtual time (time.AfterFunc inside ReplaceWithClosed)
 	synctest.Run(func() {
-		for i := 0; i < n-nm-ng; i++ {
-			c.routeCase(r.Fork(), i)
+		nr := n - nm - ng
+		for i := 0; i < nr; i++ {
+			if i%3 == 2 {
+				c.genCase(r.Fork(), ng+i, true) // generator wired to a real packetHandlerMap
+			} else {
+				c.routeCase(r.Fork(), i)
+			}
 		}
 	})
 	keys := make([]string, 0, len(c.dist))
@@ -981,6 +987,7 @@ type pendingID struct {
 type genSession struct {
 	c        *cidRun
 	v        *quic.VerifGen
+	rt       *quic.VerifRouting // real routing table driven by the generator's callbacks (integrated cases)
 	ops      []*gOp
 	initial  []byte
 	client   []byte
@@ -1001,8 +1008,13 @@ type genSession struct {
 	nRemoved int
 }
 
-func (c *cidRun) newGenSession(initial, client []byte, hasCli bool, connLen int) *genSession {
-	s := &genSession{c: c, v: quic.VerifNewGen(initial, client, hasCli, connLen), initial: initial, client: client, hasCli: hasCli,
+func (c *cidRun) newGenSession(initial, client []byte, hasCli bool, connLen int, routed bool) *genSession {
+	v := quic.VerifNewGen(initial, client, hasCli, connLen)
+	var rt *quic.VerifRouting
+	if routed { // the generator drives a real packetHandlerMap (needs a synctest bubble for the timers)
+		v, rt = quic.VerifNewGenRouted(initial, client, hasCli, connLen)
+	}
+	s := &genSession{c: c, v: v, rt: rt, initial: initial, client: client, hasCli: hasCli,
 		len0: connLen == 0, issued: map[uint64][]byte{0: initial}, retired: map[uint64]bool{}, routed: map[string]bool{},
 		expect: map[string]bool{}, fails: map[string]bool{}}
 	s.routed[string(initial)] = true
@@ -1196,6 +1208,36 @@ func (s *genSession) monitor(o *gOp) {
 			s.fail("routing-mismatch", fmt.Sprintf("routed %s, expected (unretired + unexpired + client's original) %s", setStr(s.routed), setStr(s.expect)))
 		}
 	}
+	// integrated: the real packetHandlerMap holds exactly this connection's routed IDs
+	if s.rt != nil {
+		routes, _, _ := s.rt.Snapshot()
+		switch o.kind {
+		case "removeall":
+			if len(routes) != 0 {
+				s.fail("map-leftover", fmt.Sprintf("%d connection IDs of the connection still in the transport's map after RemoveAll (first %x)", len(routes), routes[0].CID))
+			}
+		case "replace":
+			for _, rt := range routes {
+				if rt.Kind == 1 {
+					s.fail("map-leftover", fmt.Sprintf("%x still routed to the closed connection after ReplaceWithClosed", rt.CID))
+				}
+			}
+			if len(routes) != len(s.routed) {
+				s.fail("map-mismatch", fmt.Sprintf("%d IDs map to the closed stand-in, %d were routed", len(routes), len(s.routed)))
+			}
+		default:
+			got := map[string]bool{}
+			for _, rt := range routes {
+				got[string(rt.CID)] = true
+				if rt.Kind != 1 || rt.Ref != 1 {
+					s.fail("map-mismatch", fmt.Sprintf("%x maps to kind %d/%d", rt.CID, rt.Kind, rt.Ref))
+				}
+			}
+			if !sameSet(got, s.expect) {
+				s.fail("map-mismatch", fmt.Sprintf("transport routes %s, expected %s", setStr(got), setStr(s.expect)))
+			}
+		}
+	}
 	if o.kind == "remove" {
 		for i, t := range o.st.RetireTimes {
 			if t <= o.t {
@@ -1250,7 +1292,7 @@ func (s *genSession) emit() {
 	}
 }
 
-func (c *cidRun) genCase(r *u.Rng, idx int) {
+func (c *cidRun) genCase(r *u.Rng, idx int, routed bool) {
 	len0 := r.Chance(1, 12)
 	connLen := r.Range(4, 8)
 	if len0 {
@@ -1262,7 +1304,7 @@ func (c *cidRun) genCase(r *u.Rng, idx int) {
 	if hasCli {
 		client = append([]byte{0xcc}, r.Bytes(r.Range(7, 11))...)
 	}
-	s := c.newGenSession(initial, client, hasCli, connLen)
+	s := c.newGenSession(initial, client, hasCli, connLen, routed)
 	ctr := 0
 	fresh := func(k int) [][]byte {
 		out := make([][]byte, k)
@@ -1352,15 +1394,61 @@ func (c *cidRun) genCase(r *u.Rng, idx int) {
 			now += int64(r.Intn(50))
 		}
 	}
+	// the connection ends; in two of three cases while retirements are still waiting for their
+	// expiry (the peer just retired an ID, the handshake just completed)
+	if r.Chance(2, 3) {
+		st := s.v.State()
+		if hasCli && st.HasInitial {
+			s.do(&gOp{kind: "hs", t: now + int64(r.Pick(300, 600, 900))})
+		}
+		st = s.v.State()
+		if len(st.ActiveSeqs) > 1 {
+			j := r.Intn(len(st.ActiveSeqs))
+			s.do(&gOp{kind: "retire", seq: st.ActiveSeqs[j], sent: st.ActiveCIDs[(j+1)%len(st.ActiveSeqs)], t: now + int64(r.Pick(300, 600, 900)), script: fresh(1)})
+		}
+	}
 	switch r.Intn(4) {
-	case 0:
+	case 0, 3:
 		s.do(&gOp{kind: "removeall"})
 	case 1:
 		s.do(&gOp{kind: "replace", local: true, t: int64(r.Range(1, 5000))})
 	case 2:
 		s.do(&gOp{kind: "replace", local: false, t: int64(r.Range(1, 5000))})
 	}
+	if s.rt != nil {
+		// (e) once the closing period is over nothing of the connection is left in the transport
+		time.Sleep(6000 * time.Nanosecond)
+		synctest.Wait()
+		if routes, _, _ := s.rt.Snapshot(); len(routes) != 0 {
+			s.fail("map-leftover", fmt.Sprintf("%d connection IDs of the connection still in the transport's map after the closing period (first %x)", len(routes), routes[0].CID))
+		}
+		s.c.dist["gen/cases-with-real-map"]++
+	}
 	s.emit()
+}
+
+// genWitnesses: the connection is torn down while retired IDs wait for their expiry.
+func (c *cidRun) genWitnesses() {
+	ini := []byte{0xa1, 0xa2, 0xa3, 0xa4}
+	cli := []byte{0xcc, 1, 2, 3, 4, 5, 6, 7}
+	ids := func(k int, tag byte) [][]byte {
+		out := make([][]byte, k)
+		for i := range out {
+			out[i] = []byte{0xb0 | tag, byte(i + 1), 0x55, 0x66}
+		}
+		return out
+	}
+	for _, term := range []string{"removeall", "replace"} {
+		for _, srv := range []bool{true, false} {
+			s := c.newGenSession(ini, cli, srv, 4, false)
+			s.do(&gOp{kind: "setmax", limit: 4, script: ids(8, 0)})
+			s.do(&gOp{kind: "hs", t: 1000})                                                // client's original destination ID: routed until 1000
+			s.do(&gOp{kind: "retire", seq: 1, sent: ini, t: 1200, script: ids(1, 1)})     // peer retires ID 1: routed until 1200
+			s.do(&gOp{kind: "remove", t: 500})                                             // nothing has expired yet
+			s.do(&gOp{kind: term, local: true, t: 300})
+			s.emit()
+		}
+	}
 }
 
 // ---------------------------------------------------------------------------------
